@@ -661,3 +661,30 @@ def check(model, rep, tier):
     gaussian_clause(model, rep, funcs)
     mask_clause(model, rep, funcs)
     roundoff_clause(model, rep)
+    # the shift converter moves the content by +shift (the direction of the Gaussian provider's `shift`): scipy's shift receives +shift / scale
+    fsh = funcs.get("acryo/pipe/_transform.py::shift")
+    if fsh is not None:
+        MS_ = Matcher(fsh)
+        for c in calls_in(fsh):
+            if (dotted(c.func) or "").rsplit(".", 1)[-1] in ("ndi_shift", "shift") and len(c.args) >= 2:
+                arg = MS_.expr(c.args[1])
+                neg = isinstance(arg, ast.UnaryOp) and isinstance(arg.op, ast.USub)
+                core = arg.operand if neg else arg
+                isq = isinstance(core, ast.BinOp) and isinstance(core.op, ast.Div) and norm_src(core.right) == "scale" and "shift" in norm_src(core.left)
+                rep.instance("SLOT.shift", fsh.loc(c))
+                rep.ob("SLOT", fsh.anchor, "the shift converter hands +shift / scale (pixels) to scipy's shift", (isq and not neg) if (isq or neg) else None,
+                       f"`{norm_src(c)[:70]}` passes `{norm_src(arg)[:40]}`" + (": the image moves opposite to the requested shift" if neg else ""), node=c, fn=fsh,
+                       clause="4 units")
+    # the batch provider is the element-wise provider: both rescaling options reach from_array
+    from .generic import forwarded_parameter_obligations
+    try:
+        fa, fas = model.func("acryo/pipe/_imread.py::from_array"), model.func("acryo/pipe/_imread.py::from_arrays")
+        ps_ = [x.arg for x in fa.node.args.args]
+        if ps_ and ps_[0] == "scale" and any("provider_function" in norm_src(d) for d in fa.node.decorator_list):
+            ps_ = ps_[1:]  # the curried provider takes its arguments without the scale, which is supplied later
+        for pn_ in ("original_scale", "tol"):
+            if pn_ in ps_:
+                forwarded_parameter_obligations(model, rep, fas, pn_, {"from_array": ps_.index(pn_)}, "5 rescale")
+        rep.floor("FWDP", 2, "(from_arrays -> from_array: original_scale, tol)")
+    except KeyError as e:
+        rep.error(f"anchor vanished: {e}")
